@@ -45,6 +45,8 @@ func buildDidModel(p *Prog) *didModel {
 			m.getters[so.Fn] = true
 		case so.Op == "Iterator" && !so.Raw:
 			m.iters[so.Fn] = true
+		case so.Op == "Has" && !so.Raw:
+			// an existence test under the DID prefix: a read, nothing to account for
 		default:
 			m.other = append(m.other, so)
 		}
@@ -414,12 +416,10 @@ func proofRoles(p *Prog, m *didModel, pf *ssa.Function) (map[string]int, string)
 	o := NewOrigin(p, pf)
 	var vcall *Term
 	var vfn *ssa.Function
-	for _, cs := range callSites(pf) {
-		if cs.Callee != nil && m.verifyFn[resolveBound(cs.Callee)] {
-			if c, ok := cs.Instr.(*ssa.Call); ok {
-				vcall = o.Of(c)
-				vfn = resolveBound(cs.Callee)
-			}
+	for _, vc := range o.VirtualCalls() { // directly, or inside a transparent helper the proof function delegates to
+		if vc.Callee != nil && m.verifyFn[resolveBound(vc.Callee)] && vc.Term != nil {
+			vcall = vc.Term
+			vfn = resolveBound(vc.Callee)
 		}
 	}
 	if vcall == nil || vcall.Op != "call" {
@@ -576,10 +576,12 @@ func checkProofBody(p *Prog, r *Report, kp func(string, string) string, m *didMo
 	fa := NewFacts(p, pf, o)
 	var vcallI *ssa.Call
 	var vfn *ssa.Function
-	for _, cs := range callSites(pf) {
-		if cs.Callee != nil && m.verifyFn[resolveBound(cs.Callee)] {
-			vcallI, _ = cs.Instr.(*ssa.Call)
-			vfn = resolveBound(cs.Callee)
+	var vT *Term
+	for _, vc := range o.VirtualCalls() {
+		if vc.Callee != nil && m.verifyFn[resolveBound(vc.Callee)] && vc.Term != nil {
+			vcallI, _ = vc.Instr.(*ssa.Call)
+			vfn = resolveBound(vc.Callee)
+			vT = vc.Term
 		}
 	}
 	if vcallI == nil {
@@ -591,7 +593,6 @@ func checkProofBody(p *Prog, r *Report, kp func(string, string) string, m *didMo
 		r.Undecided(kp("GUARD", pn+"#verify-roles"), "verify function roles", p.FnPos(vfn), why)
 		return
 	}
-	vT := o.Of(vcallI)
 	pk := vT.Args[vr["pubkey"]]
 	// lookup call: the call whose arguments include X.Authentications
 	var lookup *Term
@@ -632,7 +633,7 @@ func checkProofBody(p *Prog, r *Report, kp func(string, string) string, m *didMo
 			r.Check(ok, kp("GUARD", tag+"#key-listed"), "success only if the key id is listed under authentication (lookup ok == true)", site, "dominated by lookup(...).ok", "a nil error can be returned although the key lookup failed")
 		}
 		// (b) key type gate
-		F := fa.At(ret.Block())
+		F := fa.AtInstrX(ret)
 		var typeAtoms []*Formula
 		for _, a := range F.Atoms() {
 			if a.Term != nil && a.Term.Op == "eq" {
